@@ -355,6 +355,8 @@ func (b *Built) Run(ctx *parsley.Context, p parsley.Parser, pos parsley.Pos) (o 
 //	   examples/json/json/parser_test.go uses): anything the reader copied from the file at construction is stale
 //	3: the file is first registered behind a 3-byte file and the reader created, THEN the same file is registered as
 //	   the only file of a fresh set (its base offset changes back to 1) and parsed through that set with the old reader
+var scratch []byte
+
 var (
 	Placement int
 	Base      = 1
@@ -363,7 +365,12 @@ var (
 
 // NewContext makes a context for input w according to Placement.
 func NewContext(w []byte) (*parsley.Context, *text.Reader, *text.File) {
-	f := text.NewFile("f", w)
+	// the file is created from a scratch buffer that is overwritten right away: it must hold its own copy of the input
+	scratch = append(scratch[:0], w...)
+	f := text.NewFile("f", scratch)
+	for i := range scratch {
+		scratch[i] = '#'
+	}
 	InputLen = len(w)
 	switch Placement {
 	case 1:
